@@ -138,7 +138,7 @@ func c01IDValue(expr, id string) string {
 		if strings.Contains(id, "+") {
 			return strings.ReplaceAll(id, "+", " ")
 		}
-		return "seed c" // the blank twin of an id that histories often store with a '+' 
+		return "seed c" // the blank twin of an id that histories often store with a '+'
 	case "blank-as-plus":
 		if strings.Contains(id, " ") {
 			return strings.ReplaceAll(id, " ", "+")
